@@ -84,7 +84,7 @@ func canAbut(kind string, a, b lexeme) bool {
 	case "word", "keyword":
 		return !wordPart(kind, first)
 	case "integer", "float":
-		return !isDigit(first) && first != '.' && (kind != "expression" || (first != 'e' && first != 'E'))
+		return !isDigit(first) && first != '.' && (kind == "generic" || (first != 'e' && first != 'E'))
 	case "quoted", "dquoted":
 		return kind == "generic" || first != last
 	case "comment":
@@ -98,13 +98,16 @@ func canAbut(kind string, a, b lexeme) bool {
 		if strings.ContainsRune("<>!=", last) && strings.ContainsRune("<=>", first) {
 			return false
 		}
+		if kind == "expression-custom" && last == '-' && strings.ContainsRune(">=-", first) {
+			return false
+		}
 		if last == '-' && kind == "generic" && (isDigit(first) || first == '.') {
 			return false
 		}
 		if last == '.' && isDigit(first) {
 			return false
 		}
-		if last == '/' && kind == "expression" && first == '*' {
+		if last == '/' && kind != "generic" && first == '*' {
 			return false
 		}
 		return true
@@ -126,6 +129,11 @@ func c13pool(kind string) map[string][]string {
 			"ws":      {" ", "\t ", "\n", "\r\n "},
 			"symbol":  {"<>", "<=", ">=", "<", ">", "=", "+", "*", "(", ")", ",", "-", ".", "/", "!", "{", ";"},
 		}
+	}
+	if kind == "expression-custom" {
+		p := c13pool("expression")
+		p["symbol"] = append([]string{"->", "=>", "--", "-="}, p["symbol"]...)
+		return p
 	}
 	kws := []string{}
 	for _, k := range c13keywords {
@@ -149,6 +157,9 @@ func c13pool(kind string) map[string][]string {
 
 // c13rare: lexemes that only a specific comparison, table index, magnitude or buffer length tells apart
 func c13rare(kind string) map[string][]string {
+	if kind == "expression-custom" {
+		kind = "expression"
+	}
 	long := strings.Repeat("ab", 150)
 	digits := strings.Repeat("1234567890", 30)
 	if kind == "generic" {
@@ -257,7 +268,7 @@ func randomPayload(kind, cls string, r *rand.Rand) string {
 				sb.WriteRune(rune('0' + r.Intn(10)))
 			}
 		}
-		if kind == "expression" && (r.Intn(2) == 0 || !strings.Contains(sb.String(), ".")) {
+		if kind != "generic" && (r.Intn(2) == 0 || !strings.Contains(sb.String(), ".")) {
 			sb.WriteString([]string{"e", "E"}[r.Intn(2)])
 			sb.WriteString([]string{"", "+", "-"}[r.Intn(3)])
 			for i := 0; i < 1+r.Intn(3); i++ {
@@ -308,7 +319,7 @@ func randomPayload(kind, cls string, r *rand.Rand) string {
 
 func genC13(g *Gen) {
 	r := g.Rand()
-	for _, kind := range []string{"generic", "expression"} {
+	for _, kind := range []string{"generic", "expression", "expression-custom"} {
 		pool := c13pool(kind)
 		// (1) all sequences of <= 3 lexemes over one representative per class plus EVERY multi-character symbol and keyword spelling
 		var reps []lexeme
